@@ -522,4 +522,609 @@ theorem consistent_createType_aux (K : Consts) (ts ts' : TypeSystem) (n s : Stri
   exact consistent_extend ts ts.redeclared n sup.name new1 hc hnew
     ((hasExact_iff_find ts sup.name).mpr ⟨sup, hfs⟩) hn1 hs1 hc1
 
+/-! ### The ancestor relation -/
+
+theorem Anc.right_reg {ts : TypeSystem} {a b : String} (h : Anc ts a b) : hasExact ts b = true := by
+  cases h with
+  | refl h => exact h
+  | step => rename_i s tb _ _ hf; exact (hasExact_iff_find ts b).mpr ⟨tb, hf⟩
+
+theorem Anc.left_reg {ts : TypeSystem} {a b : String} (h : Anc ts a b) : hasExact ts a = true := by
+  induction h with
+  | refl h => exact h
+  | step _ _ _ _ _ _ ih => exact ih
+
+theorem Anc.trans {ts : TypeSystem} {a b c : String} (h1 : Anc ts a b) (h2 : Anc ts b c) : Anc ts a c := by
+  induction h2 with
+  | refl _ => exact h1
+  | step c s tc hf hs _ ih => exact Anc.step a c s tc hf hs ih
+
+/-- inversion: an ancestor of `b` is `b` itself or an ancestor of the supertype of `b` -/
+theorem Anc.inv {ts : TypeSystem} {a b : String} {tb : TypeRec} (h : Anc ts a b)
+    (hf : find? ts b = some tb) : a = b ∨ ∃ s, tb.super = some s ∧ Anc ts a s := by
+  cases h with
+  | refl _ => exact Or.inl rfl
+  | step =>
+    rename_i s tb' hs h' hf'
+    rw [hf] at hf'; cases hf'
+    exact Or.inr ⟨s, hs, h'⟩
+
+/-- ancestors come first in registration order -/
+theorem Anc.idx_le {ts : TypeSystem} (hc : Consistent ts) {a b : String} (h : Anc ts a b) :
+    ∀ i j (hi : i < ts.types.length) (hj : j < ts.types.length),
+      (ts.types[i]).name = a → (ts.types[j]).name = b → i ≤ j := by
+  induction h with
+  | refl _ =>
+    intro i j hi hj h1 h2
+    exact Nat.le_of_eq (idx_unique hc.nodup hi hj (h1.trans h2.symm))
+  | step b s tb hf hs _ ih =>
+    intro i j hi hj h1 h2
+    have hj' : find? ts b = some ts.types[j] := by rw [← h2]; exact find?_getElem hc.nodup j hj
+    rw [hf] at hj'; cases hj'
+    obtain ⟨k, hk, hkl, hkn⟩ := hc.topo j hj s hs
+    have := ih i k hi hkl h1 hkn
+    omega
+
+/-- every registered type is below TOP -/
+theorem anc_top {ts : TypeSystem} (hc : Consistent ts) :
+    ∀ m i (hi : i < ts.types.length), i ≤ m → Anc ts TOP (ts.types[i]).name := by
+  intro m
+  induction m with
+  | zero =>
+    intro i hi him
+    have hf := find?_getElem hc.nodup i hi
+    cases hs : (ts.types[i]).super with
+    | none =>
+      rw [hc.onlyRoot _ (List.getElem_mem hi) hs]
+      obtain ⟨t, ht, _⟩ := hc.topRoot
+      exact Anc.refl TOP ((hasExact_iff_find ts TOP).mpr ⟨t, ht⟩)
+    | some s =>
+      obtain ⟨j, hj, _⟩ := hc.topo i hi s hs
+      omega
+  | succ m ih =>
+    intro i hi him
+    have hf := find?_getElem hc.nodup i hi
+    cases hs : (ts.types[i]).super with
+    | none =>
+      rw [hc.onlyRoot _ (List.getElem_mem hi) hs]
+      obtain ⟨t, ht, _⟩ := hc.topRoot
+      exact Anc.refl TOP ((hasExact_iff_find ts TOP).mpr ⟨t, ht⟩)
+    | some s =>
+      obtain ⟨j, hj, hjl, hjn⟩ := hc.topo i hi s hs
+      have := ih j hjl (by omega)
+      rw [hjn] at this
+      exact Anc.step TOP _ s _ hf hs this
+
+theorem anc_top_of_reg {ts : TypeSystem} (hc : Consistent ts) {b : String} (hb : hasExact ts b = true) :
+    Anc ts TOP b := by
+  obtain ⟨t, ht⟩ := (hasExact_iff_find ts b).mp hb
+  obtain ⟨i, hi, e⟩ := find?_idx ht
+  have := anc_top hc i i hi (Nat.le_refl i)
+  rw [e, find?_name ht] at this
+  exact this
+
+/-! ### `subsumes`, `isInstanceOf` -/
+
+theorem superOf_getElem {ts : TypeSystem} (hc : Consistent ts) (i : Nat) (hi : i < ts.types.length) :
+    superOf ts (ts.types[i]).name = (ts.types[i]).super := by
+  unfold superOf; rw [find?_getElem hc.nodup i hi]; rfl
+
+theorem subsumesAux_none (ts : TypeSystem) (a : String) (f : Nat) : subsumesAux ts a f none = false := by
+  cases f <;> rfl
+
+theorem isInstanceOfAux_none (ts : TypeSystem) (a : String) (f : Nat) : isInstanceOfAux ts a f none = false := by
+  cases f <;> rfl
+
+/-- with the supertype of a registered type known, `Anc` unfolds one step -/
+theorem anc_step_iff {ts : TypeSystem} {a b s : String} {tb : TypeRec} (hf : find? ts b = some tb)
+    (hs : tb.super = some s) (hab : a ≠ b) : Anc ts a b ↔ Anc ts a s := by
+  constructor
+  · intro h
+    rcases h.inv hf with e | ⟨s', hs', h'⟩
+    · exact absurd e hab
+    · rw [hs] at hs'; cases hs'; exact h'
+  · intro h; exact Anc.step a b s tb hf hs h
+
+theorem anc_root_iff {ts : TypeSystem} {a b : String} {tb : TypeRec} (hf : find? ts b = some tb)
+    (hs : tb.super = none) (hab : a ≠ b) : ¬ Anc ts a b := by
+  intro h
+  rcases h.inv hf with e | ⟨s', hs', _⟩
+  · exact hab e
+  · rw [hs] at hs'; cases hs'
+
+theorem subsumesAux_spec {ts : TypeSystem} (hc : Consistent ts) (a : String) :
+    ∀ i (hi : i < ts.types.length) fuel, i + 1 ≤ fuel →
+      (subsumesAux ts a fuel (some (ts.types[i]).name) = true ↔ Anc ts a (ts.types[i]).name) := by
+  intro i
+  induction i using Nat.strongRecOn with
+  | ind i ih =>
+    intro hi fuel hfuel
+    obtain ⟨f, rfl⟩ : ∃ f, fuel = f + 1 := ⟨fuel - 1, by omega⟩
+    have hf := find?_getElem hc.nodup i hi
+    have hreg : hasExact ts (ts.types[i]).name = true := (hasExact_iff_find _ _).mpr ⟨_, hf⟩
+    simp only [subsumesAux]
+    by_cases hab : a = (ts.types[i]).name
+    · have : (a == (ts.types[i]).name) = true := by simpa using hab
+      simp only [this, if_true, true_iff]
+      rw [← hab] at hreg ⊢; exact Anc.refl a hreg
+    · have : (a == (ts.types[i]).name) = false := by simpa using hab
+      simp only [this, Bool.false_eq_true, if_false]
+      rw [superOf_getElem hc i hi]
+      cases hs : (ts.types[i]).super with
+      | none =>
+        rw [subsumesAux_none]
+        simp only [Bool.false_eq_true, false_iff]
+        exact anc_root_iff hf hs hab
+      | some s =>
+        obtain ⟨j, hj, hjl, hjn⟩ := hc.topo i hi s hs
+        have := ih j hj hjl f (by omega)
+        rw [hjn] at this
+        rw [this]
+        exact (anc_step_iff hf hs hab).symm
+
+theorem subsumes_iff_ancestor_aux (ts : TypeSystem) (hc : Consistent ts) (a b : String)
+    (ha : hasExact ts a = true) (hb : hasExact ts b = true) : subsumes ts a b = true ↔ Anc ts a b := by
+  unfold subsumes
+  split
+  · rename_i h
+    have : a = TOP := by simpa using h
+    subst this
+    simp only [true_iff]
+    exact anc_top_of_reg hc hb
+  · obtain ⟨t, ht⟩ := (hasExact_iff_find ts b).mp hb
+    obtain ⟨i, hi, e⟩ := find?_idx ht
+    have := subsumesAux_spec hc a i hi (ts.types.length + 1) (by omega)
+    rw [e, find?_name ht] at this
+    exact this
+
+theorem isInstanceOfAux_spec {ts : TypeSystem} (hc : Consistent ts) (a : String) :
+    ∀ i (hi : i < ts.types.length) fuel, i + 1 ≤ fuel →
+      (isInstanceOfAux ts a fuel (some (ts.types[i]).name) = true ↔ Anc ts a (ts.types[i]).name) := by
+  intro i
+  induction i using Nat.strongRecOn with
+  | ind i ih =>
+    intro hi fuel hfuel
+    obtain ⟨f, rfl⟩ : ∃ f, fuel = f + 1 := ⟨fuel - 1, by omega⟩
+    have hf := find?_getElem hc.nodup i hi
+    have hreg : hasExact ts (ts.types[i]).name = true := (hasExact_iff_find _ _).mpr ⟨_, hf⟩
+    simp only [isInstanceOfAux]
+    by_cases hab : a = (ts.types[i]).name
+    · have : ((ts.types[i]).name == a) = true := by simpa using hab.symm
+      simp only [this, if_true, true_iff]
+      rw [← hab] at hreg ⊢; exact Anc.refl a hreg
+    · have : ((ts.types[i]).name == a) = false := by simpa using fun e => hab e.symm
+      simp only [this, Bool.false_eq_true, if_false]
+      by_cases htop : (ts.types[i]).name = TOP
+      · have : ((ts.types[i]).name == TOP) = true := by simpa using htop
+        simp only [this, if_true, Bool.false_eq_true, false_iff]
+        obtain ⟨t, ht, hts⟩ := hc.topRoot
+        rw [← htop, hf] at ht; cases ht
+        exact anc_root_iff hf hts hab
+      · have : ((ts.types[i]).name == TOP) = false := by simpa using htop
+        simp only [this, Bool.false_eq_true, if_false]
+        rw [superOf_getElem hc i hi]
+        cases hs : (ts.types[i]).super with
+        | none =>
+          rw [isInstanceOfAux_none]
+          simp only [Bool.false_eq_true, false_iff]
+          exact anc_root_iff hf hs hab
+        | some s =>
+          obtain ⟨j, hj, hjl, hjn⟩ := hc.topo i hi s hs
+          have := ih j hj hjl f (by omega)
+          rw [hjn] at this
+          rw [this]
+          exact (anc_step_iff hf hs hab).symm
+
+theorem isInstanceOf_iff_ancestor_aux (ts : TypeSystem) (hc : Consistent ts) (a b : String)
+    (_ha : hasExact ts a = true) (hb : hasExact ts b = true) : isInstanceOf ts b a = true ↔ Anc ts a b := by
+  unfold isInstanceOf
+  obtain ⟨t, ht⟩ := (hasExact_iff_find ts b).mp hb
+  obtain ⟨i, hi, e⟩ := find?_idx ht
+  have := isInstanceOfAux_spec hc a i hi (ts.types.length + 1) (by omega)
+  rw [e, find?_name ht] at this
+  exact this
+
+/-! ### `descendants` -/
+
+/-- going down: below `a` is `a` or below one of the children of `a` -/
+theorem Anc.down {ts : TypeSystem} {a b : String} (h : Anc ts a b) :
+    a = b ∨ ∃ c tc, find? ts c = some tc ∧ tc.super = some a ∧ Anc ts c b := by
+  induction h with
+  | refl _ => exact Or.inl rfl
+  | step b s tb hf hs h' ih =>
+    right
+    rcases ih with e | ⟨c, tc, hfc, hsc, hcb⟩
+    · subst e
+      exact ⟨b, tb, hf, hs, Anc.refl b ((hasExact_iff_find ts b).mpr ⟨tb, hf⟩)⟩
+    · exact ⟨c, tc, hfc, hsc, Anc.step c b s tb hf hs hcb⟩
+
+theorem Anc.of_child {ts : TypeSystem} {a c b : String} {tc : TypeRec} (ha : hasExact ts a = true)
+    (hfc : find? ts c = some tc) (hsc : tc.super = some a) (h : Anc ts c b) : Anc ts a b :=
+  (Anc.step a c a tc hfc hsc (Anc.refl a ha)).trans h
+
+/-- ancestors of one type are linearly ordered -/
+theorem Anc.linear {ts : TypeSystem} {c1 c2 x : String} (h1 : Anc ts c1 x) (h2 : Anc ts c2 x) :
+    Anc ts c1 c2 ∨ Anc ts c2 c1 := by
+  induction h2 with
+  | refl _ => exact Or.inl h1
+  | step x s tx hf hs h' ih =>
+    rcases h1.inv hf with e | ⟨s', hs', h1'⟩
+    · subst e; exact Or.inr (Anc.step c2 c1 s tx hf hs h')
+    · rw [hs] at hs'; cases hs'; exact ih h1'
+
+/-- a child has a larger index than its parent -/
+theorem child_idx_lt {ts : TypeSystem} (hc : Consistent ts) {i k : Nat} (hi : i < ts.types.length)
+    (hk : k < ts.types.length) (hs : (ts.types[k]).super = some (ts.types[i]).name) : i < k := by
+  obtain ⟨j, hj, hjl, hjn⟩ := hc.topo k hk _ hs
+  have := idx_unique hc.nodup hjl hi hjn
+  omega
+
+/-- two children of the same type have disjoint subtrees -/
+theorem children_disjoint {ts : TypeSystem} (hc : Consistent ts) {a c1 c2 x : String} {t1 t2 : TypeRec}
+    (hf1 : find? ts c1 = some t1) (hs1 : t1.super = some a)
+    (hf2 : find? ts c2 = some t2) (hs2 : t2.super = some a)
+    (h1 : Anc ts c1 x) (h2 : Anc ts c2 x) : c1 = c2 := by
+  -- indices
+  obtain ⟨k1, hk1, e1⟩ := find?_idx hf1
+  obtain ⟨k2, hk2, e2⟩ := find?_idx hf2
+  obtain ⟨ta, hta⟩ := (hasExact_iff_find ts a).mp (hc.superReg t1 (find?_mem hf1) a hs1)
+  obtain ⟨i, hi, ei⟩ := find?_idx hta
+  have hia : (ts.types[i]).name = a := by rw [ei]; exact find?_name hta
+  have hn1 : (ts.types[k1]).name = c1 := by rw [e1]; exact find?_name hf1
+  have hn2 : (ts.types[k2]).name = c2 := by rw [e2]; exact find?_name hf2
+  have lt1 : i < k1 := child_idx_lt hc hi hk1 (by rw [e1, hia]; exact hs1)
+  have lt2 : i < k2 := child_idx_lt hc hi hk2 (by rw [e2, hia]; exact hs2)
+  -- a proper ancestor relation between the two children is impossible
+  have key : ∀ {c c' : String} {t' : TypeRec} {k : Nat} (hk : k < ts.types.length),
+      (ts.types[k]).name = c → i < k → find? ts c' = some t' → t'.super = some a →
+      Anc ts c c' → c = c' := by
+    intro c c' t' k hk hn lt hf' hs' h
+    rcases h.inv hf' with e | ⟨s, hs, h'⟩
+    · exact e
+    · rw [hs'] at hs; cases hs
+      have := h'.idx_le hc k i hk hi hn hia
+      omega
+  rcases h1.linear h2 with h | h
+  · exact key hk1 hn1 lt1 hf2 hs2 h
+  · exact (key hk2 hn2 lt2 hf1 hs1 h).symm
+
+theorem descendants_spec {ts : TypeSystem} (hc : Consistent ts) :
+    ∀ m i (hi : i < ts.types.length) fuel, ts.types.length - i ≤ m → m ≤ fuel →
+      (∀ b, b ∈ descendants ts fuel (ts.types[i]).name ↔ Anc ts (ts.types[i]).name b) ∧
+      (descendants ts fuel (ts.types[i]).name).Nodup := by
+  intro m
+  induction m with
+  | zero => intro i hi fuel hm _; omega
+  | succ m ih =>
+    intro i hi fuel hm hfuel
+    obtain ⟨f, rfl⟩ : ∃ f, fuel = f + 1 := ⟨fuel - 1, by omega⟩
+    have hf := find?_getElem hc.nodup i hi
+    have hreg : hasExact ts (ts.types[i]).name = true := (hasExact_iff_find _ _).mpr ⟨_, hf⟩
+    -- facts about each child
+    have hchild : ∀ c ∈ (ts.types[i]).children, ∃ k, ∃ (hk : k < ts.types.length),
+        (ts.types[k]).name = c ∧ (ts.types[k]).super = some (ts.types[i]).name ∧ i < k := by
+      intro c hcm
+      obtain ⟨tc, hfc, hsc⟩ := (hc.link _ c).mp ⟨_, hf, hcm⟩
+      obtain ⟨k, hk, e⟩ := find?_idx hfc
+      subst e
+      exact ⟨k, hk, find?_name hfc, hsc, child_idx_lt hc hi hk hsc⟩
+    have hrec : ∀ c ∈ (ts.types[i]).children,
+        (∀ b, b ∈ descendants ts f c ↔ Anc ts c b) ∧ (descendants ts f c).Nodup := by
+      intro c hcm
+      obtain ⟨k, hk, hkn, _, hik⟩ := hchild c hcm
+      have := ih k hk f (by omega) (by omega)
+      rw [hkn] at this
+      exact this
+    have hunf : descendants ts (f + 1) (ts.types[i]).name =
+        (ts.types[i]).name :: (ts.types[i]).children.flatMap (descendants ts f) := by
+      simp only [descendants, hf]
+    rw [hunf]
+    constructor
+    · intro b
+      simp only [List.mem_cons, List.mem_flatMap]
+      constructor
+      · rintro (e | ⟨c, hcm, hb⟩)
+        · subst e; exact Anc.refl _ hreg
+        · obtain ⟨k, hk, hkn, hks, _⟩ := hchild c hcm
+          have hfk := find?_getElem hc.nodup k hk
+          rw [hkn] at hfk
+          exact Anc.of_child hreg hfk hks (((hrec c hcm).1 b).mp hb)
+      · intro h
+        rcases h.down with e | ⟨c, tc, hfc, hsc, hcb⟩
+        · exact Or.inl e.symm
+        · right
+          obtain ⟨ta, hta, hm⟩ := (hc.link _ c).mpr ⟨tc, hfc, hsc⟩
+          rw [hf] at hta; cases hta
+          exact ⟨c, hm, ((hrec c hm).1 b).mpr hcb⟩
+    · rw [List.nodup_cons]
+      constructor
+      · simp only [List.mem_flatMap, not_exists, not_and]
+        intro c hcm hmem
+        obtain ⟨k, hk, hkn, hks, hik⟩ := hchild c hcm
+        have h := ((hrec c hcm).1 _).mp hmem
+        have := h.idx_le hc k i hk hi hkn rfl
+        omega
+      · unfold List.Nodup
+        rw [List.pairwise_flatMap]
+        refine ⟨fun c hcm => (hrec c hcm).2, ?_⟩
+        refine List.Pairwise.imp_of_mem ?_ (hc.childNodup _ (List.getElem_mem hi))
+        intro c1 c2 hm1 hm2 hne x hx1 y hx2 exy
+        subst exy
+        obtain ⟨k1, hk1, hkn1, hks1, _⟩ := hchild c1 hm1
+        obtain ⟨k2, hk2, hkn2, hks2, _⟩ := hchild c2 hm2
+        have hf1 := find?_getElem hc.nodup k1 hk1
+        have hf2 := find?_getElem hc.nodup k2 hk2
+        rw [hkn1] at hf1; rw [hkn2] at hf2
+        exact hne (children_disjoint hc hf1 hks1 hf2 hks2
+          (((hrec c1 hm1).1 x).mp hx1) (((hrec c2 hm2).1 x).mp hx2))
+
+theorem descendants_eq_closure_aux (ts : TypeSystem) (hc : Consistent ts) (a b : String)
+    (ha : hasExact ts a = true) : b ∈ descendantsOf ts a ↔ Anc ts a b := by
+  obtain ⟨t, ht⟩ := (hasExact_iff_find ts a).mp ha
+  obtain ⟨i, hi, e⟩ := find?_idx ht
+  have := (descendants_spec hc (ts.types.length + 1) i hi (ts.types.length + 1) (by omega)
+    (Nat.le_refl _)).1 b
+  rw [e, find?_name ht] at this
+  exact this
+
+theorem descendants_nodup_aux (ts : TypeSystem) (hc : Consistent ts) (a : String) :
+    (descendantsOf ts a).Nodup := by
+  cases hfa : find? ts a with
+  | none =>
+    unfold descendantsOf
+    simp only [descendants, hfa]
+    exact List.nodup_nil
+  | some t =>
+    obtain ⟨i, hi, e⟩ := find?_idx hfa
+    have := (descendants_spec hc (ts.types.length + 1) i hi (ts.types.length + 1) (by omega)
+      (Nat.le_refl _)).2
+    rw [e, find?_name hfa] at this
+    exact this
+
+/-! ### Lookup -/
+
+theorem getType_unknown_or_ambiguous_aux (ts : TypeSystem) (n : String) (h0 : find? ts n = none)
+    (h1 : hasDot n = true ∨ (ts.types.filter (fun t => shortName t.name == n)).length ≠ 1) :
+    getType ts n = .error .typeNotFound := by
+  unfold getType
+  rw [h0]
+  simp only
+  split
+  · rfl
+  · rename_i hd
+    rcases h1 with h1 | h1
+    · exact absurd h1 hd
+    · split
+      · rename_i t hflt
+        rw [hflt] at h1; simp at h1
+      · rfl
+
+theorem containsType_iff_aux (ts : TypeSystem) (n : String) :
+    containsType ts n = true ↔ ∃ t, getType ts n = .ok t := by
+  unfold containsType
+  split
+  · rename_i hd
+    simp only [Bool.or_false] at hd
+    rw [hasExact_iff_find]
+    unfold getType
+    constructor
+    · rintro ⟨t, ht⟩; exact ⟨t, by rw [ht]⟩
+    · rintro ⟨t, ht⟩
+      cases hf : find? ts n with
+      | none => rw [hf] at ht; simp only [hd, if_true] at ht; cases ht
+      | some t' => exact ⟨t', rfl⟩
+  · cases hg : getType ts n with
+    | ok t => simp
+    | error e => simp
+
+/-! ### A structurally recursive copy of `pushInherited` (the kernel cannot unfold well-founded recursion) -/
+
+def pushList (f : Feature) (rec : TypeSystem → List String → R TypeSystem) :
+    TypeSystem → List String → R TypeSystem
+  | ts, [] => .ok ts
+  | ts, c :: cs =>
+    match find? ts c with
+    | none => pushList f rec ts cs
+    | some t =>
+      match addCheck t f true with
+      | .conflict => .error .valueError
+      | .same => pushList f rec ts cs
+      | .fresh =>
+        match rec (setRec ts { t with inh := t.inh ++ [f] }) t.children with
+        | .error e => .error e
+        | .ok ts2 => pushList f rec ts2 cs
+
+def pushS (f : Feature) : Nat → TypeSystem → List String → R TypeSystem
+  | 0 => fun _ _ => .error .outOfFuel
+  | fuel+1 => pushList f (pushS f fuel)
+
+theorem pushInherited_eq_pushS (f : Feature) (fuel : Nat) (ts : TypeSystem) (cs : List String) :
+    pushInherited f fuel ts cs = pushS f fuel ts cs := by
+  fun_induction pushInherited f fuel ts cs with
+  | case1 => rfl
+  | case2 fuel ts h =>
+    cases fuel with
+    | zero => exact absurd rfl h
+    | succ n => rfl
+  | case3 fuel ts c cs hf ih =>
+    rw [ih]; simp only [pushS, pushList, hf]
+  | case4 fuel ts c cs t hf hchk =>
+    simp only [pushS, pushList, hf, hchk]
+  | case5 fuel ts c cs t hf hchk ih =>
+    rw [ih]; simp only [pushS, pushList, hf, hchk]
+  | case6 fuel ts c cs t hf hchk ts1 ih2 ih1 =>
+    simp only [pushS, pushList, hf, hchk]
+    rw [ih2]
+    cases h2 : pushS f fuel ts1 t.children with
+    | error e => rfl
+    | ok ts2 =>
+      simp only [bind, Except.bind]
+      rw [ih1]; rfl
+
+def addFeatureS (ts : TypeSystem) (domain : String) (f : Feature) : R TypeSystem :=
+  match find? ts domain with
+  | none => .error .typeNotFound
+  | some t =>
+    match addCheck t f false with
+    | .conflict => .error .valueError
+    | .same => .ok ts
+    | .fresh =>
+      if descendantConflict ts domain f then .error .valueError
+      else
+        let ts1 := setRec ts { t with own := t.own ++ [f] }
+        pushS f (ts.types.length + 1) ts1 t.children
+
+theorem addFeature_eq_S (ts : TypeSystem) (domain : String) (f : Feature) :
+    addFeature ts domain f = addFeatureS ts domain f := by
+  unfold addFeature addFeatureS
+  simp only [pushInherited_eq_pushS]
+  rfl
+
+def createFeatureS (ts : TypeSystem) (domain name range : String) (elem : Option String := none)
+    (descr : Option String := none) (multi : Option Bool := none) : R TypeSystem := do
+  let reserved := name == "self" || name == "type"
+  let name' := if reserved then name ++ "_" else name
+  let d ← getType ts domain
+  let r ← getType ts range
+  let e ← match elem with
+    | none => pure none
+    | some en => do let t ← getType ts en; pure (some t.name)
+  addFeatureS ts d.name
+    { name := name', domain := d.name, range := r.name, elem := e, descr := descr, multi := multi,
+      reserved := reserved }
+
+theorem createFeature_eq_S (ts : TypeSystem) (domain name range : String) (elem descr : Option String)
+    (multi : Option Bool) :
+    createFeature ts domain name range elem descr multi = createFeatureS ts domain name range elem descr multi := by
+  unfold createFeature createFeatureS
+  simp only [addFeature_eq_S]
+  rfl
+
+end Cassis.TS
+
+namespace Cassis.Gen
+open Cassis.TS
+
+def replayStepS (K : Consts) (ts : Option TypeSystem) (s : Step) : Option TypeSystem :=
+  match ts with
+  | none => none
+  | some ts =>
+    match s with
+    | .ty n sup => (createType K ts n sup none).toOption
+    | .ft dom n r e m => (createFeatureS ts dom n r e none m).toOption
+
+theorem replayStep_eq_S (K : Consts) : replayStep K = replayStepS K := by
+  funext ts s
+  unfold replayStep replayStepS
+  simp only [createFeature_eq_S]
+  rfl
+
+def replayS (K : Consts) (script : List Step) : Option TypeSystem :=
+  script.foldl (replayStepS K) (some initTS)
+
+theorem replay_eq_S (K : Consts) (script : List Step) : replay K script = replayS K script := by
+  unfold replay replayS
+  rw [replayStep_eq_S]
+
+end Cassis.Gen
+
+namespace Cassis.TS
+
+theorem builtins_replay_aux : Gen.replay Gen.consts Gen.builtinScript = some Gen.builtinTS := by
+  rw [Gen.replay_eq_S]
+  decide +kernel
+
+/-! ### A Boolean checker for `Consistent` on concrete tables -/
+
+def nodupB : List String → Bool
+  | [] => true
+  | a :: l => !(l.contains a) && nodupB l
+
+theorem nodupB_sound : ∀ l, nodupB l = true → l.Nodup := by
+  intro l
+  induction l with
+  | nil => intro _; exact List.nodup_nil
+  | cons a l ih =>
+    intro h
+    simp only [nodupB, Bool.and_eq_true, Bool.not_eq_true', List.contains_eq_mem,
+      decide_eq_false_iff_not] at h
+    exact List.nodup_cons.mpr ⟨h.1, ih h.2⟩
+
+def consistentB (ts : TypeSystem) : Bool :=
+  nodupB (ts.types.map (·.name)) &&
+  (match find? ts TOP with
+    | some t => t.super.isNone
+    | none => false) &&
+  (ts.types.all fun t => t.super.isSome || t.name == TOP) &&
+  (ts.types.all fun t => match t.super with
+    | none => true
+    | some s => hasExact ts s) &&
+  (ts.types.all fun ta => ta.children.all fun b => match find? ts b with
+    | some tb => tb.super == some ta.name
+    | none => false) &&
+  (ts.types.all fun tb => match tb.super with
+    | none => true
+    | some a => match find? ts a with
+      | some ta => ta.children.contains tb.name
+      | none => false) &&
+  (ts.types.all fun t => nodupB t.children) &&
+  ((List.range ts.types.length).all fun i => match ts.types[i]? with
+    | none => true
+    | some t => match t.super with
+      | none => true
+      | some s => (ts.types.take i).any (·.name == s))
+
+theorem consistentB_sound (ts : TypeSystem) (h : consistentB ts = true) : Consistent ts := by
+  simp only [consistentB, Bool.and_eq_true] at h
+  obtain ⟨⟨⟨⟨⟨⟨⟨h1, h2⟩, h3⟩, h4⟩, h5⟩, h6⟩, h7⟩, h8⟩ := h
+  rw [List.all_eq_true] at h3 h4 h5 h6 h7 h8
+  refine ⟨nodupB_sound _ h1, ?_, ?_, ?_, ?_, ?_, ?_⟩
+  · cases hf : find? ts TOP with
+    | none => rw [hf] at h2; cases h2
+    | some t =>
+      rw [hf] at h2
+      exact ⟨t, rfl, by simpa using h2⟩
+  · intro t ht hs
+    have := h3 t ht
+    simpa [hs] using this
+  · intro t ht s hs
+    have := h4 t ht
+    simpa [hs] using this
+  · intro a b
+    constructor
+    · rintro ⟨ta, hta, hb⟩
+      have := h5 ta (find?_mem hta)
+      rw [List.all_eq_true] at this
+      have := this b hb
+      cases hfb : find? ts b with
+      | none => rw [hfb] at this; cases this
+      | some tb =>
+        rw [hfb] at this
+        refine ⟨tb, rfl, ?_⟩
+        rw [← find?_name hta]
+        simpa using this
+    · rintro ⟨tb, htb, hs⟩
+      have := h6 tb (find?_mem htb)
+      rw [hs] at this
+      simp only at this
+      cases hfa : find? ts a with
+      | none => rw [hfa] at this; cases this
+      | some ta =>
+        rw [hfa] at this
+        refine ⟨ta, rfl, ?_⟩
+        rw [← find?_name htb]
+        simpa using this
+  · intro t ht
+    exact nodupB_sound _ (h7 t ht)
+  · intro i hi s hs
+    have := h8 i (List.mem_range.mpr hi)
+    rw [List.getElem?_eq_getElem hi] at this
+    simp only [hs, List.any_eq_true, beq_iff_eq] at this
+    obtain ⟨x, hx, hxn⟩ := this
+    obtain ⟨j, hj, e⟩ := List.mem_take_iff_getElem.mp hx
+    exact ⟨j, by omega, by omega, by rw [e]; exact hxn⟩
+
+theorem consistent_builtins_aux : Consistent Gen.builtinTS ∧ Consistent Gen.builtinTSNoDoc :=
+  ⟨consistentB_sound _ (by decide +kernel), consistentB_sound _ (by decide +kernel)⟩
+
 end Cassis.TS
